@@ -24,6 +24,7 @@ func init() {
 				clCursorMovesFiltered(c)
 				clRefreshOnlyOnVisible(c)
 				clVisitorBoundary(c)
+				clSkiplistNextAdvancesOnce(c)
 			})
 		},
 	})
